@@ -16,6 +16,9 @@ pub enum RTy {
     Bool,
     Unit,
     Rng,
+    Scheme,
+    /// a wrapper type of src/*.rs, by its Rust name
+    W(String),
     Opt(Box<RTy>),
     Res(Box<RTy>),
     List(Box<RTy>),
@@ -37,6 +40,8 @@ impl RTy {
             RTy::Bool => "bool".into(),
             RTy::Unit => "unit".into(),
             RTy::Rng => "rng".into(),
+            RTy::Scheme => "scheme".into(),
+            RTy::W(n) => return crate::wrappers::coq_type(n),
             RTy::Opt(t) => format!("(option {})", t.coq()?),
             RTy::Res(t) => format!("(res {})", t.coq()?),
             RTy::List(t) => format!("(list {})", t.coq()?),
@@ -120,9 +125,22 @@ pub fn rty_of(t: &syn::Type, generics: &[(String, String)]) -> RTy {
         };
         match name.as_str() {
             "Option" | "CtOption" => return RTy::Opt(Box::new(arg0().unwrap_or(RTy::Unknown))),
-            "BlsResult" => return RTy::Res(Box::new(arg0().unwrap_or(RTy::Unknown))),
+            "BlsResult" | "Result" => return RTy::Res(Box::new(arg0().unwrap_or(RTy::Unknown))),
             "Vec" => return RTy::List(Box::new(arg0().unwrap_or(RTy::Unknown))),
             _ => {}
+        }
+        if name == "SignatureSchemes" {
+            return RTy::Scheme;
+        }
+        if crate::wrappers::wrapper(&name).is_some() {
+            return RTy::W(name);
+        }
+        if name == "Self" && p.path.segments.len() == 1 {
+            for (g, b) in generics {
+                if g == "Self" {
+                    return RTy::W(b.clone());
+                }
+            }
         }
         // generic parameter
         if p.path.segments.len() == 1 {
@@ -130,6 +148,14 @@ pub fn rty_of(t: &syn::Type, generics: &[(String, String)]) -> RTy {
                 if *g == name {
                     if bound.contains("AsRef<[u8]>") {
                         return RTy::Bytes;
+                    }
+                    if let Some(pos) = bound.find("AsRef<[") {
+                        let inner = &bound[pos + "AsRef<[".len()..];
+                        if let Some(end) = inner.rfind("]>") {
+                            if let Ok(ty) = syn::parse_str::<syn::Type>(&inner[..end]) {
+                                return RTy::List(Box::new(rty_of(&ty, generics)));
+                            }
+                        }
                     }
                     if let Some(pos) = bound.find("Iterator<Item=") {
                         let inner = &bound[pos + "Iterator<Item=".len()..];
